@@ -213,6 +213,9 @@ func (ex *Exec) callStatic(c *ssa.CallCommon, fv FuncV, args []Value, pos token.
 // local whose address it receives, may allocate, and returns arbitrary values of its result types. What is
 // proved about the caller then holds whatever the callee does, provided it returns (its own panics,
 // non-termination and preconditions are NOT checked; the evidence lists every call abstracted this way).
+// CallCovers: thorough tier and `govc lock`/`dev`: a reachability cover after every call with postconditions.
+var CallCovers bool
+
 func (ex *Exec) abstractUnknown() bool {
 	return ex.top != nil && ex.top.contract != nil && ex.top.contract.Pragmas["unknowncalls"] == "havoc"
 }
@@ -472,6 +475,10 @@ func (ex *Exec) applyContract(fc *FuncContract, key string, names []string, typs
 	}
 	if fc.Pragmas["noreturn"] != "" {
 		ex.st.pc = TFalse
+	} else if len(fc.Ensures) > 0 && !ex.safetyOnly && ex.fr == ex.top && CallCovers {
+		// vacuity: the callee's postconditions must be satisfiable here (an effect claimed in `ensures` but
+		// missing from `modifies` makes them contradictory and every path after the call vacuous)
+		ex.vc.Cover("call-returns:"+key, ex.st.pc, TTrue, ex.posString(pos))
 	}
 	return ex.resultValue(sig, res)
 }
